@@ -26,6 +26,7 @@ pub use crate::loop_logic::EventIterator;
 use crate::{sys::TokenFactory, Poll, Readiness, RegistrationToken, Token};
 //@ include sources_postaction_body
 //@ include sources_traits_body
+//@ include sources_box_body
 pub mod timer {
 use vstd::prelude::*;
 use vstd::multiset::Multiset;
